@@ -212,6 +212,7 @@ def one_run(ctx, rid, task, plan, concrete, n_inst, spawn_mode, time_limit=7):
     rec = {"id": rid, "np": np_, "n": n_inst, "spawn_ok": spawn_mode == "ok", "outcome": outcome, "standin": A, "stdout": B,
            "saved": sorted(index.get(nm, 0) for nm in saved)}
     raw = {"cmd": " ".join(cmd[1:]), "task": TASKS[task["k"]], "plan": plan, "concrete": concrete, "exit": rc, "stdout": out[-6000:],
+           "announced": [e["name"] for e in ev if e["ev"] == "announce"],
            "stderr": err[-2000:], "standin_log": standin, "saved_sha": saved, "expected_sha": task["shas"], "spawn_mode": spawn_mode}
     return rec, raw
 
@@ -342,11 +343,23 @@ def run_C10(ctx):
         jobs.append((f"r{k}", t, p))
     # emission order per task: one cheap run with all-Theorem plan
     order = {}
+    pre_violations, broken = [], set()
     for t in tasks:
         conc = {nm: {"o": "Theorem", "stdout_b64": b64(b"% SZS status Theorem for x\n"), "delay_ms": 0} for nm in t["shas"]}
         rec, raw = one_run(ctx, f"order{t['k']}", t, {"exits": []}, conc, 1, "ok")
-        ann = [e["name"] for e in parse_stdout(raw["stdout"]) if e["ev"] == "announce"]
+        ann = raw["announced"]
         order[t["k"]] = ann
+        # every problem handed to a prover is announced under its own name and saved under that name
+        if len(set(ann)) != len(ann) or set(ann) != set(t["shas"]):
+            pre_violations.append({"check": "C10.every_problem_has_its_own_name_and_file", "text": raw["cmd"],
+                                   "detail": f"{len(ann)} problems announced ({len(set(ann))} distinct names), {len(t['shas'])} problem files saved: "
+                                             f"announced {ann}, saved {sorted(t['shas'])}", "record": raw})
+            broken.add(t["k"])
+    tasks = [t for t in tasks if t["k"] not in broken]
+    by_np = {}
+    for t in tasks:
+        by_np.setdefault(len(t["shas"]), []).append(t)
+    jobs = [(rid, t, p) for rid, t, p in jobs if t["k"] not in broken]
     recs, raws = [], {}
     with concurrent.futures.ThreadPoolExecutor(max_workers=6) as ex:
         futs = []
@@ -390,7 +403,7 @@ def run_C10(ctx):
             rec, raw = f.result()
             recs.append(rec)
             raws[rec["id"]] = raw
-    violations = []
+    violations = list(pre_violations)
     # data part of the property: what was fed to the provers is byte-identical to the saved files, names distinct
     for rec in recs:
         raw = raws[rec["id"]]
